@@ -219,6 +219,7 @@ pub fn check(case: &Case, p: &mut Probe) -> Check {
     p.class_if(!invertible, "singular");
     p.class_if(k == 0, "square");
     p.class_if(r == 1, "single-row");
+    p.class_if(k > 256, "message-longer-than-256");
     let Ok(enc) = enc else {
         if r >= 2 {
             p.nontrivial();
@@ -279,12 +280,14 @@ pub fn check(case: &Case, p: &mut Probe) -> Check {
 /// with a few extra ones below it (invertible, dense path with row exchanges) or a permutation
 /// matrix with one column replaced by a copy of another (singular)
 fn large_strategy(_t: Tier) -> BoxedStrategy<Case> {
-    (60usize..=140, 1usize..=70, 0..3u8, any::<u64>())
+    // tall shapes (many checks, few message columns) and, one in four, flat shapes whose message is
+    // several hundred bits long (beyond any block width of a batched or parallel product)
+    prop_oneof![3 => (60usize..=140, 1usize..=70, 0..3u8, any::<u64>()), 1 => (2usize..=24, 200usize..=1100, 0..3u8, any::<u64>())]
         .prop_flat_map(|(r, k, kind, msg_seed)| {
             (
                 Just((r, k, kind, msg_seed)),
                 Just((0..r).collect::<Vec<usize>>()).prop_shuffle(),
-                proptest::collection::vec((any::<u16>(), any::<u16>()), 0..=(3 * r)),
+                proptest::collection::vec((any::<u16>(), any::<u16>()), 0..=(3 * r + if k >= 200 { 2 * k } else { 0 })),
                 proptest::collection::vec((any::<u16>(), any::<u16>()), 0..=12),
                 (any::<u16>(), any::<u16>()),
             )
@@ -398,7 +401,7 @@ pub fn property() -> Property {
         }),
         Box::new(Sub {
             name: "encoder-large",
-            rule: "60..=140 rows, 1..=70 message columns, sparse message part; tail = exact staircase, a permutation matrix times a unit lower triangular one (invertible, dense path with row exchanges) or a permutation matrix with one column duplicated or removed (singular); 64 pseudo-random messages per accepted matrix; same oracle",
+            rule: "60..=140 rows, 1..=70 message columns (one in four: 2..=24 rows and 200..=1100 message columns with up to 2k + 3r ones in the message part), sparse message part; tail = exact staircase, a permutation matrix times a unit lower triangular one (invertible, dense path with row exchanges) or a permutation matrix with one column duplicated or removed (singular); 64 pseudo-random messages per accepted matrix; same oracle",
             cases: |t| t.pick(1_500, 50_000),
             strategy: large_strategy,
             check,
